@@ -47,6 +47,7 @@ import (
 	"github.com/basekick-labs/arc/zzverif/shim/vclock"
 	"github.com/basekick-labs/arc/zzverif/shim/vos"
 	"github.com/rs/zerolog"
+	"golang.org/x/sys/unix"
 )
 
 func main() {
@@ -85,6 +86,15 @@ type c09JobLog struct {
 	Ops       []vos.Op  `json:"ops"`
 	Dead      bool      `json:"dead"`
 	Fault     *c09Fault `json:"fault,omitempty"`
+	CPUStart  float64   `json:"cpu_s_at_main,omitempty"` // debug: CPU seconds used before main / by the whole job
+	CPUJob    float64   `json:"cpu_s_total,omitempty"`
+	WallJob   float64   `json:"wall_s_job,omitempty"`
+}
+
+func c09CPU() float64 {
+	var ru syscall.Rusage
+	syscall.Getrusage(syscall.RUSAGE_SELF, &ru)
+	return float64(ru.Utime.Sec+ru.Stime.Sec) + float64(ru.Utime.Usec+ru.Stime.Usec)/1e6
 }
 
 func c09Claim(dir, prefix string) int {
@@ -109,6 +119,7 @@ func c09IDKey(tier, partition string, batch int) string {
 // JSON on stdin -> compaction.RunSubprocessJob -> result JSON on stdout, "error: ..." + exit 1 when
 // the job could not be set up) around the fault plan of the scenario.
 func c09JobProcess() {
+	cpu0, wall0 := c09CPU(), time.Now()
 	data, err := io.ReadAll(os.Stdin)
 	var cfg compaction.SubprocessJobConfig
 	if err == nil {
@@ -147,6 +158,10 @@ func c09JobProcess() {
 	}
 	result, jobErr := compaction.RunSubprocessJob(&cfg)
 	lg.Ops, lg.Dead = vos.Stop()
+	if os.Getenv("VERIF_C09_DEBUG") != "" {
+		lg.CPUStart, lg.CPUJob, lg.WallJob = cpu0, c09CPU(), time.Since(wall0).Seconds()
+		fmt.Fprintf(os.Stderr, "C09-TIMING job cpu_at_main=%.2fs cpu_total=%.2fs wall=%.2fs\n", lg.CPUStart, lg.CPUJob, lg.WallJob)
+	}
 	b, _ := json.Marshal(lg)
 	os.WriteFile(filepath.Join(planDir, fmt.Sprintf("job.%d.json", seq)), b, 0o600)
 	if lg.Dead {
@@ -499,6 +514,10 @@ func c09Canon(v any) string {
 }
 
 func c09Scan(db *sql.DB, store string, tags []string) *c09Obs {
+	if os.Getenv("VERIF_C09_DEBUG") != "" {
+		t0 := time.Now()
+		defer func() { fmt.Fprintf(os.Stderr, "C09-TIMING scan %v\n", time.Since(t0)) }()
+	}
 	o := &c09Obs{Rows: map[string]int{}, Keys: map[string]int{}, RowKey: map[string]string{}, Bad: map[string]string{}}
 	filepath.WalkDir(store, func(p string, d fs.DirEntry, err error) error {
 		if err != nil || d.IsDir() {
@@ -602,7 +621,7 @@ type c09Worker struct {
 }
 
 func (w *c09Worker) logger() zerolog.Logger {
-	if w.debug {
+	if w.debug && os.Getenv("VERIF_C09_DEBUG") == "log" {
 		return zerolog.New(os.Stderr).Level(zerolog.DebugLevel)
 	}
 	return zerolog.Nop()
@@ -690,6 +709,12 @@ func (e *c09Env) jobLogs() []c09JobLog {
 var c09Tiers = []string{"hourly", "daily"}
 
 func (e *c09Env) cycle(m *compaction.Manager) {
+	if e.w.debug {
+		t0 := time.Now()
+		defer func() {
+			fmt.Fprintf(os.Stderr, "C09-TIMING cycle %v jobs_so_far=%d\n", time.Since(t0), len(e.jobLogs()))
+		}()
+	}
 	e.writePlan()
 	if _, err := m.RunCompactionCycleForTiers(context.Background(), c09Tiers); err != nil {
 		ev.Unbound("C09: RunCompactionCycleForTiers: " + err.Error())
@@ -961,6 +986,30 @@ func c09Label(op vos.Op, store, tmp string) string {
 // ---------------------------------------------------------------------------------------------
 // driver
 
+// c09Pin binds this worker (every thread it has now; later threads and the job subprocesses inherit)
+// to one CPU. DuckDB and the Go runtime size their thread pools by the affinity mask, so a job process
+// starts with 1 thread instead of one per core: 3x less CPU per job and no oversubscription with 16
+// workers. Environment only; the code under test is unchanged (jobs run with threads=1 anyway).
+func c09Pin(i int) {
+	var cur, set unix.CPUSet
+	if unix.SchedGetaffinity(0, &cur) != nil || cur.Count() == 0 {
+		return
+	}
+	var allowed []int
+	for c := 0; c < 1024; c++ {
+		if cur.IsSet(c) {
+			allowed = append(allowed, c)
+		}
+	}
+	set.Set(allowed[i%len(allowed)])
+	ents, _ := os.ReadDir("/proc/self/task")
+	for _, e := range ents {
+		if tid, err := strconv.Atoi(e.Name()); err == nil {
+			unix.SchedSetaffinity(tid, &set)
+		}
+	}
+}
+
 func c09Scratch() string {
 	if s := os.Getenv("VERIF_C09_SCRATCH"); s != "" {
 		return s
@@ -993,9 +1042,18 @@ func verifC09() {
 		for k, v := range c1 {
 			c2[k] += v
 		}
-		c09Report(run, parts, scns, c2, samples, ok1 && ok2)
+		var done []c09Scn
+		for i := range scns {
+			if c2[fmt.Sprintf("done#%d", i)] > 0 {
+				done = append(done, scns[i])
+			}
+			delete(c2, fmt.Sprintf("done#%d", i))
+		}
+		c2["scenarios_planned"] = int64(len(scns))
+		c09Report(run, parts, done, c2, samples, ok1 && ok2 && len(done) == len(scns))
 		return
 	}
+	c09Pin(shard)
 	w := &c09Worker{run: run, scratch: filepath.Join(scratch, fmt.Sprintf("w%d.%s", shard, os.Getenv("VERIF_C09_PHASE"))), ctr: map[string]int64{}, samples: ev.NewSamples(1), debug: os.Getenv("VERIF_C09_DEBUG") != ""}
 	os.MkdirAll(w.scratch, 0o700)
 	defer os.RemoveAll(w.scratch)
@@ -1037,6 +1095,7 @@ func verifC09() {
 				fxs[p.Name], _ = p.build()
 			}
 			w.runScenario(p, fxs[p.Name], &scns[i])
+			w.ctr[fmt.Sprintf("done#%d", i)] = 1
 		}
 	}
 	os.RemoveAll(w.scratch)
@@ -1139,7 +1198,7 @@ func c09BuildScenarios(run *ev.Run, parts []c09Part, scratch string) []c09Scn {
 			ev.Unbound("C09: no hourly job recorded for " + p.Name)
 		}
 		targets = append(targets, hourly[0])
-		if !run.Quick() {
+		if !run.Quick() && (p.Name == "plain6" || p.Name == "tags6dup" || p.Name == "twohours" || p.Name == "plain12") {
 			if len(hourly) > 1 {
 				targets = append(targets, hourly[1])
 			}
@@ -1150,18 +1209,47 @@ func c09BuildScenarios(run *ev.Run, parts []c09Part, scratch string) []c09Scn {
 				}
 			}
 		}
+		// temp-directory calls (package compaction's own os calls: download, DuckDB spill dir, cleanup) leave the
+		// storage untouched and are equivalent as fault points: the two mkdirs, the first and the last download call
+		// and the cleanup stand for their phases
+		keep := func(ops []vos.Op) map[int]bool {
+			k := map[int]bool{}
+			first, last := -1, -1
+			for i, op := range ops {
+				if c09RecLabel(op) == "download-to-temp" {
+					if first < 0 {
+						first = i
+					}
+					last = i
+				} else {
+					k[i] = true
+				}
+			}
+			if first >= 0 {
+				k[first], k[last] = true, true
+			}
+			return k
+		}
+		allModes := !run.Quick() || p.Name == "plain6"
 		for ti, t := range targets {
 			job := fmt.Sprintf("%s-b%d", t.Tier, t.Batch)
 			if ti == 1 && t.Tier == "hourly" && t.Partition != targets[0].Partition {
 				job = "hourly-b1(second-partition)"
 			}
+			kp := keep(t.Ops)
 			for k, op := range t.Ops {
+				if !kp[k] {
+					continue
+				}
 				lab := c09RecLabel(op)
 				base := c09Scn{Part: p.Name, Label: lab, Op: op, Job: job, BatchFiles: len(t.Files),
 					Fault: c09Fault{Tier: t.Tier, Partition: t.Partition, Batch: t.Batch, Nth: 0, K: k, Torn: -1}}
 				modes := []string{"job-kill"}
 				if ti == 0 {
-					modes = []string{"job-kill", "node-crash", "job-error"}
+					modes = []string{"job-kill", "node-crash"}
+					if allModes {
+						modes = append(modes, "job-error")
+					}
 				}
 				for _, md := range modes {
 					s := base
@@ -1179,11 +1267,49 @@ func c09BuildScenarios(run *ev.Run, parts []c09Part, scratch string) []c09Scn {
 				}
 			}
 		}
-		for k, op := range rec.Inproc {
-			out = append(out, c09Scn{Part: p.Name, Mode: "inproc-error", Label: c09RecLabel(op), Op: op, Job: rec.InJob, BatchFiles: rec.InN,
-				Fault: c09Fault{Tier: "hourly", Partition: targets[0].Partition, Batch: 1, K: k, Torn: -1, Mode: "fail"}})
+		if allModes {
+			kp := keep(rec.Inproc)
+			for k, op := range rec.Inproc {
+				if kp[k] {
+					out = append(out, c09Scn{Part: p.Name, Mode: "inproc-error", Label: c09RecLabel(op), Op: op, Job: rec.InJob, BatchFiles: rec.InN,
+						Fault: c09Fault{Tier: "hourly", Partition: targets[0].Partition, Batch: 1, K: k, Torn: -1, Mode: "fail"}})
+				}
+			}
 		}
 	}
+	if only := os.Getenv("VERIF_C09_ONLY"); only != "" {
+		var f []c09Scn
+		for _, s := range out {
+			if strings.Contains(strings.Join([]string{s.Part, s.Mode, s.Job, s.Label}, "|"), only) {
+				f = append(f, s)
+			}
+		}
+		out = f
+	}
+	// storage mutations first, phase kills last, partitions interleaved: a capped run covers the core first
+	prio := func(s c09Scn) int {
+		switch {
+		case strings.HasPrefix(s.Label, "input-delete"), strings.HasPrefix(s.Label, "output-"), strings.HasPrefix(s.Label, "manifest-"):
+			return 0
+		case strings.HasPrefix(s.Label, "temp-"), s.Label == "download-to-temp", s.Label == "storage-root-mkdir":
+			return 2
+		}
+		return 1
+	}
+	mprio := map[string]int{"job-kill": 0, "node-crash": 1, "job-error": 2, "inproc-error": 3}
+	sort.SliceStable(out, func(i, j int) bool {
+		a, b := out[i], out[j]
+		if prio(a) != prio(b) {
+			return prio(a) < prio(b)
+		}
+		if (a.Job == "hourly-b1") != (b.Job == "hourly-b1") {
+			return a.Job == "hourly-b1"
+		}
+		if mprio[a.Mode] != mprio[b.Mode] {
+			return mprio[a.Mode] < mprio[b.Mode]
+		}
+		return false
+	})
 	return out
 }
 
@@ -1240,8 +1366,9 @@ func c09Report(run *ev.Run, parts []c09Part, scns []c09Scn, ctr map[string]int64
 }
 
 // c09Regroup turns raw violations (kind|at|mode|job|step|partition) into classes
-// kind|at|mode|job|step|shape where shape is "batch-files>=N" when exactly the partitions whose
-// target batch has >=N files fail, else the list of failing partitions.
+// kind|at|mode|job|step|shape where shape is "any-partition" when every partition in which that
+// fault point was executed fails, "batch-files>=N" when exactly those whose target batch has >=N
+// files fail, else the list of failing partitions.
 func c09Regroup(run *ev.Run, parts []c09Part, scns []c09Scn) {
 	raw, counts := run.TakeViolations()
 	type grp struct {
@@ -1283,7 +1410,7 @@ func c09Regroup(run *ev.Run, parts []c09Part, scns []c09Scn) {
 				bsz[s.Part] = s.BatchFiles
 			}
 		}
-		minFail := 1 << 30
+		minFail, all := 1<<30, len(bsz) > 0
 		for p := range g.parts {
 			if bsz[p] < minFail {
 				minFail = bsz[p]
@@ -1294,11 +1421,17 @@ func c09Regroup(run *ev.Run, parts []c09Part, scns []c09Scn) {
 			if (n >= minFail) != g.parts[p] {
 				threshold = false
 			}
+			if !g.parts[p] {
+				all = false
+			}
 		}
 		shape := ""
-		if threshold && minFail > 0 && minFail < 1<<30 {
+		switch {
+		case all:
+			shape = "any-partition"
+		case threshold && minFail > 0 && minFail < 1<<30:
 			shape = fmt.Sprintf("batch-files>=%d", minFail)
-		} else {
+		default:
 			var ns []string
 			for p := range g.parts {
 				ns = append(ns, p)
